@@ -15,6 +15,7 @@ from .. import tlc, mbt
 from .. import c02_util as U
 from ..common import Verdict, use_repo, SEED
 
+PAR = max(1, int(os.environ.get('VERIF_TRACE_PAR', '16') or 16))     # cap on TLC workers / pool sizes / concurrent JVMs (shared box)
 ALLTZ = ['utc', 'p00', 'pH0', 'p0M', 'pHM', 'nH0', 'n0M', 'nHM']
 BASE = dict(MaxObjs=3, MaxKids=2, ValScalars=['s_word'], KeyScalars=['s_word'], CellTypes=['list', 'dict'], DateRanks=[1], TzShapes=['utc'],
             SortOpts=[False], FlowOpts=['N'], StyleOpts=[''], D7Fixed=False)
@@ -56,6 +57,31 @@ CONFIGS = {
 }
 TIERS = {'quick': ['graph4', 'mixed3', 'order1', 'dates2', 'scalars', 'tz2'],
          'thorough': ['graph4', 'lists5', 'mixed4', 'order2', 'dates3', 'scalars', 'scalars2', 'opts2', 'tz3']}
+# spec/StrContext.tla: every text over the indicator alphabet (the 19 YAML indicators, space, tab, line break, a word
+# character, '.', '~', '=', '<', '\\', the document markers '---' and '...' as symbols of their own) in every context
+# under every default_flow_style
+STR_ALPHABET = [ord(c) for c in '-?:,[]{}#&*!|>\'"%@` \t\nx.~=<\\'] + [2000001, 2000002]      # ... and the macro-symbols '---', '...' 
+STR_BASE = dict(Alphabet=STR_ALPHABET, Third=[ord('x')], MaxLen=3, MinDepth=0, MaxDepth=1, Sibs=['none', 'after'], FlowOpts=['T', 'F', 'N'],
+                StyleOpts=[''], Variant='"tree"', LongUnits=[], LongLens=[], D12Fixed=False)
+STR_CONFIGS = {
+    # lead x follower x {nothing, word} at the root, as list item, dict key, dict value, alone or followed by a sibling
+    'str_d1': dict(STR_BASE),
+    # lead x follower nested two levels (block in block, flow in block, flow in flow)
+    'str_d2': dict(STR_BASE, MaxLen=2, MinDepth=2, MaxDepth=2, Sibs=['none']),
+    # long texts: runs of a character written as 1 ('x'), 2 (', BEL), 4 (\\x01), 6 (U+E000) and 10 (U+1F600) characters around
+    # the lengths where a key stops being a simple key (5 + 123 = 128 raw) or is given up by the scanner (1024 written)
+    'str_long': dict(STR_BASE, Alphabet=[], Third=[], MaxLen=0, LongUnits=[120, 39, 7, 1, 0xE000, 0x1F600], LongLens=[100, 102, 103, 122, 123, 128]),
+    # thorough: every text of three symbols (inner indicators at every position); a sibling before the text; every
+    # default_style; three levels
+    'str_len3': dict(STR_BASE, Third=STR_ALPHABET, Sibs=['none']),
+    'str_d1_sibs': dict(STR_BASE, Sibs=['none', 'after', 'before']),
+    'str_d2_sibs': dict(STR_BASE, MinDepth=2, MaxDepth=2, Sibs=['none', 'after', 'before']),
+    'str_styles': dict(STR_BASE, MaxLen=2, Sibs=['none', 'after'], StyleOpts=['', 'sq', 'dq', 'lit', 'fold']),
+    'str_d3': dict(STR_BASE, MaxLen=2, MinDepth=3, MaxDepth=3, Sibs=['none']),
+}
+STR_TIERS = {'quick': ['str_d1', 'str_d2', 'str_long'], 'thorough': ['str_long', 'str_len3', 'str_d1_sibs', 'str_d2_sibs', 'str_styles', 'str_d3']}
+STR_NEGCTL = ['qc_like_dash', 'dash_never', 'inner_qm_free', 'lead_pct_free']     # broken variants of L: the model's H must reject each
+STR_INVARIANTS = ['PlainRoundTrip', 'BlockStyleInBlockContext']
 EXTRA_OPTS = {'quick': 0.25, 'thorough': 1}          # points of the full option product per state, besides the state's own options
 RANDOM_VALUES = {'quick': 2500, 'thorough': 60000}
 INVARIANTS = ['RoundTrip', 'TagsSurvive', 'AnchorsWellFormed', 'OnlyObjectsAliased', 'KeeperHoldsAll']
@@ -157,10 +183,10 @@ def option_sets(st, rseed, extra):
     return sets
 
 
-def run_case(yaml, value, in_proj, opts, dumper, bucket, recipe):
+def run_case(yaml, value, in_proj, opts, dumper, bucket, recipe, dumped=None):
     """observe one (value, options, dumper) with both loaders; file the observations into the bucket"""
     n = 0
-    for loader, outcome, text, back in U.observe(yaml, value, opts, dumper):
+    for loader, outcome, text, back in U.observe(yaml, value, opts, dumper, dumped=dumped):
         tr = U.rt_trace(in_proj, outcome, back, not opts.get('sort_keys', True))
         n += 1
         suspect = outcome != 'ok' or tr['h1'] != tr['h2'] or tr['r1'] != tr['r2']
@@ -265,6 +291,112 @@ def grid_work(args):
     return res
 
 
+def strctx_work(states, extra):
+    """spec -> code for spec/StrContext.tla: every state (text, context, options) is built as a real value and dumped by
+    both safe dumpers, every distinct text is loaded by both safe loaders; the observations go to TLC (GraphIso).
+    L is compared with the real classes in both directions (drift notes only, H is silent on styles and layout):
+      emitter: the style the model chooses for the scalar (and, for plain, the whole document it lays out) against
+               what SafeDumper wrote;
+      scanner: the model's verdict on the text written plain at its place against SafeLoader on that document."""
+    yaml = use_repo()
+    name = extra['config']
+    res = {'n': 0, 'obs': 0, 'uniq': {}, 'suspect': [], 'drift': {}, 'styles': {}, 'plain_unsafe': 0, 'plain_refused': 0,
+           'samples': [], 'lead': {}, 'keytoolong': 0}
+
+    def drift(kind, ex):
+        d = res['drift'].setdefault(kind, [0, ex])
+        d[0] += 1
+    for st in states:
+        res['n'] += 1
+        cps, ctx, lr = st['text'], st['ctx'], st['lres']
+        value = U.strctx_value(cps, ctx['path'], ctx['sib'])
+        opts = U.strctx_opts(st['opts'])
+        in_proj = U.project(value)
+        recipe = {'kind': 'strctx', 'config': name, 'text': cps, 'path': ctx['path'], 'sib': ctx['sib']}
+        s = ''.join(map(chr, cps))
+        pre, post = ''.join(map(chr, lr['pre'])), ''.join(map(chr, lr['post']))
+        res['styles'][lr['style']] = res['styles'].get(lr['style'], 0) + 1
+        if not lr['plainok']:
+            res['plain_unsafe'] += 1
+        elif lr['style'] != 'plain':
+            res['plain_refused'] += 1          # the emitter is more careful than the scanner requires
+        if cps and chr(cps[0]) in "-?:,[]{}#&*!|>'\"%@`" and len(cps) > 1 and chr(cps[1]) not in ' \t\n':
+            res['lead'][chr(cps[0])] = res['lead'].get(chr(cps[0]), 0) + 1
+        seen = {}
+        for dumper in U.DUMPERS:
+            dumped = U.dump_once(yaml, value, opts, dumper)
+            text = dumped[0]
+            if text is not None and text in seen:
+                continue                      # the same document: the same loads
+            seen[text] = dumper
+            nsus = len(res['suspect'])
+            res['obs'] += run_case(yaml, value, in_proj, opts, dumper, res, recipe, dumped)
+            if dumper == 'SafeDumper' and lr['keytoolong']:
+                res['keytoolong'] += 1
+                if len(res['suspect']) == nsus:          # L exhibits the defect D12 here, the real code round-trips
+                    drift('keylimit', {'text': s[:20] + '...', 'length': len(s), 'ctx': ctx, 'opts': st['opts'], 'written': str(text)[:60]})
+            if dumper == 'SafeDumper' and text is not None and st['opts']['style'] != '':
+                # the neighbours are written in the default_style too: the layout of the model (plain neighbours) does
+                # not apply; the style of the scalar is taken from the events of the document
+                real = U.strctx_parsed_style(yaml, text, ctx['path'], ctx['sib'])
+                if real is not None and real != lr['style']:
+                    drift('style', {'text': s, 'ctx': ctx, 'opts': st['opts'], 'model': lr['style'], 'real': real, 'written': text[:80]})
+            elif dumper == 'SafeDumper' and text is not None:
+                real = None if lr['complexkey'] else U.strctx_real_style(text, pre)
+                ex = {'text': s, 'ctx': ctx, 'opts': st['opts'], 'model': lr['style'], 'real': real, 'written': text[:80]}
+                if lr['complexkey']:
+                    pass
+                elif real is None:
+                    drift('layout', ex)
+                elif real != lr['style']:
+                    drift('style', ex)
+                elif real == 'plain' and lr['narrow'] and text != pre + s + post:
+                    drift('layout', ex)
+        # the scanner model on its own: the text written plain at its place
+        if not lr['complexkey'] and st['opts']['style'] == '':
+            doc = pre + s + post
+            try:
+                back = yaml.load(doc, Loader=yaml.SafeLoader)
+                same = U.project(back) == in_proj
+            except Exception:
+                same = False
+            if same != lr['plainok']:
+                drift('scanner', {'document': doc, 'ctx': ctx, 'opts': st['opts'], 'model_reads_text_back': lr['plainok'],
+                                  'SafeLoader_reads_text_back': same})
+        if len(res['samples']) < 1 and lr['style'] == 'plain' and len(cps) >= 2 and ctx['path']:
+            res['samples'].append({'value': repr(value), 'options': U.opts_json(opts), 'text': pre + s + post})
+    return res
+
+
+def run_str_configs(names, prefix, workers, negctl, d12fixed=False):
+    """the TLC runs of spec/StrContext.tla -> ({name: result}, {variant: result})"""
+    import threading
+    runs, neg = {}, {}
+
+    def go(name):
+        cfg = dict(STR_CONFIGS[name], D12Fixed=d12fixed)
+        runs[name] = tlc.run('StrContext', cfg='MC_StrContext.cfg', dump=True, tag=prefix + name, timeout=3000, coverage=False,
+                             workers=workers, heap='4g', constants={k: tla(x) for k, x in cfg.items()})
+
+    def gon(variant):
+        cfg = dict(STR_CONFIGS['str_d1'], Variant='"%s"' % variant)
+        neg[variant] = tlc.run('StrContext', cfg='MC_StrContext.cfg', tag=prefix + 'neg_' + variant, timeout=600, coverage=False,
+                               workers=2, heap='2g', constants={k: tla(x) for k, x in cfg.items()})
+    if PAR < 16:                           # shared box: one JVM at a time
+        workers = min(workers, PAR)
+        for n in names:
+            go(n)
+        for x in negctl:
+            gon(x)
+        return runs, neg
+    ths = [threading.Thread(target=go, args=(n,)) for n in names] + [threading.Thread(target=gon, args=(x,)) for x in negctl]
+    for t in ths:
+        t.start()
+    for t in ths:
+        t.join()
+    return runs, neg
+
+
 def report(v, yaml, tr, rec, why):
     rec = json.loads(rec) if isinstance(rec, str) else rec
     value, opts = U.rebuild(rec)
@@ -273,6 +405,11 @@ def report(v, yaml, tr, rec, why):
     key = U.classify(yaml, value, opts, rec['dumper'], rec['loader'], outcome, text, back, why)
     if rec['kind'] == 'state':
         key['config'] = rec['config']
+    if rec['kind'] == 'strctx':          # the input class: first characters of the text, its place, how the container is written
+        key['config'] = rec['config']
+        key['lead'] = ''.join(map(chr, rec['text'][:2]))
+        key['place'] = '/'.join(rec['path']) or 'root'
+        key['flow'] = opts.get('default_flow_style')
     detail = {'recipe': rec, 'value': repr(value)[:400], 'text': (text if isinstance(text, str) else repr(text))[:600] if text is not None else None,
               'loaded': repr(back)[:400], 'why': why}
     return v.violation(key, detail)
@@ -280,7 +417,7 @@ def report(v, yaml, tr, rec, why):
 
 def judge_and_report(v, yaml, traces, tag):
     """traces: list of (trace, recipe, is_suspect); every trace is judged by TLC; rejected ones are classified"""
-    verdicts, tstates = U.judge_parallel('Trace_RoundTrip', [t for t, _, _ in traces], tag)
+    verdicts, tstates = U.judge_parallel('Trace_RoundTrip', [t for t, _, _ in traces], tag, concurrent=max(1, min(12, PAR // 2)))
     rejected = 0
     for (tr, rec, sus), (ok, why, at) in zip(traces, verdicts):
         if not ok:
@@ -298,7 +435,11 @@ def run_configs(names, d7fixed, prefix, workers):
         cfg = dict(CONFIGS[name], D7Fixed=d7fixed)
         runs[name] = tlc.run('Represent', cfg='MC_Represent.cfg', dump=True, tag=prefix + name, timeout=3000, coverage=False,
                              workers=workers, heap='4g', constants={k: tla(x) for k, x in cfg.items()})
-    if workers >= 16:
+    if PAR < 16:                           # shared box: one JVM at a time
+        workers = min(workers, PAR)
+        for n in names:
+            go(n)
+    elif workers >= 16:
         for n in names:
             go(n)
     else:
@@ -331,14 +472,98 @@ def main(tier, replay=None):
         d7fixed = '+00:00:01' not in yaml.dump(probe, Dumper=yaml.SafeDumper)
     except Exception:
         d7fixed = False
-    import time
+    # ... and the D12 repair (a key whose written form is longer than 1024 characters is not written as a simple key)?
+    try:
+        d12fixed = yaml.dump({'\U0001F600' * 110: 1}, Dumper=yaml.SafeDumper).startswith('? ')
+    except Exception:
+        d12fixed = False
+    import time, threading
     phases, t0 = {}, time.time()
     states = trans = obs = nontrivial = tstates = rejected = njudged = 0
     samples, traces, per_config, lasts = [], [], {}, {}
-    names = os.environ['VERIF_DEV_CONFIGS'].split(',') if os.environ.get('VERIF_DEV_CONFIGS') else TIERS[tier]   # development aid
-    runs = run_configs(names, d7fixed, 'C02_', 16 if tier == 'thorough' else 6)
+    names = os.environ['VERIF_DEV_CONFIGS'].split(',') if os.environ.get('VERIF_DEV_CONFIGS') else TIERS[tier] + STR_TIERS[tier]   # development aid
+    snames = [n for n in names if n in STR_CONFIGS]
+    names = [n for n in names if n in CONFIGS]
+    negctl = STR_NEGCTL if tier == 'thorough' else STR_NEGCTL[:1]
+    # the TLC runs (model checking of L => H and enumeration of the states to replay) go on in the background while
+    # this process drives the real code with the random values and the string grid
+    box = {}
+
+    def tlc_represent():
+        box['runs'] = run_configs(names, d7fixed, 'C02_', 16 if tier == 'thorough' else 6)
+
+    def tlc_strctx():
+        box['sruns'], box['neg'] = run_str_configs(snames, 'C02_', 8 if tier == 'thorough' else 4, negctl if snames else [], d12fixed)
+    pool = mp.Pool(min(16, PAR))           # (forked before the threads exist)
+    bg = [threading.Thread(target=tlc_represent), threading.Thread(target=tlc_strctx)]
+    for t in bg:
+        t.start()
+    # code -> spec: larger random values
+    nrand = RANDOM_VALUES[tier]
+    chunk = max(50, nrand // 64)
+    jobs = [(SEED, a, min(chunk, nrand - a)) for a in range(0, nrand, chunk)]
+    # code -> spec: the systematic string grid (every grid string x context x style x option set x 4 pairings)
+    step = max(1, len(U.GRID) // 64)
+    with pool:
+        rout = pool.map(random_work, jobs, chunksize=1)
+        gout = pool.map(grid_work, [(a, min(a + step, len(U.GRID))) for a in range(0, len(U.GRID), step)], chunksize=1)
+    phases['random_driver_and_grid_s'] = round(time.time() - t0, 1)
+    for t in bg:
+        t.join()
+    if 'runs' not in box or 'sruns' not in box:
+        raise SystemExit('machinery failure: a TLC run did not start')
+    runs, sruns = box['runs'], box['sruns']
     phases['tlc_model_checking_s'] = round(time.time() - t0, 1)
     t0 = time.time()
+    # spec/StrContext.tla: the broken variants of L must be rejected by the model's H (the invariant is not vacuous)
+    for variant, r in box['neg'].items():
+        if 'PlainRoundTrip' not in r.violated:
+            print(r.out[-2000:])
+            raise SystemExit('machinery failure: StrContext.tla does not reject the broken variant %s of L (H is vacuous)' % variant)
+    str_cov = {'styles': {}, 'plain_unsafe_places': 0, 'plain_safe_but_quoted': 0, 'leading_indicator_then_non_space': {},
+               'negative_controls_rejected_by_H': sorted(box['neg']), 'L_predicts_D12_rejection': 0, 'D12_fixed_in_tree': d12fixed}
+    for name in snames:
+        r = sruns[name]
+        if r.violated:
+            print(r.out[-3000:])
+            raise SystemExit('machinery failure: StrContext.tla violates %s in configuration %s (L does not refine H in the model)' % (r.violated, name))
+        tlc.require_ok(r, 'StrContext/' + name)
+        states += r.distinct
+        trans += r.generated
+        out = mbt.pmap(strctx_work, r.dump, {'config': name}, procs=min(16, PAR))
+        n = sum(o['n'] for o in out)
+        if n != r.distinct:
+            raise SystemExit('machinery failure: replayed %d string states, TLC found %d states' % (n, r.distinct))
+        per_config[name] = {'states': r.distinct, 'tlc_s': round(r.wall, 1), 'observations': sum(o['obs'] for o in out)}
+        obs += sum(o['obs'] for o in out)
+        uniq, drift = {}, {}
+        for o in out:
+            samples += o['samples'][:1] if len(samples) < 2 else []
+            for k, rec in o['uniq'].items():
+                uniq.setdefault(k, rec)
+            traces += [(t, rec, True) for t, rec in o['suspect']]
+            for k, (c, ex) in o['drift'].items():
+                d = drift.setdefault(k, [0, ex])
+                d[0] += c
+            for k, c in o['styles'].items():
+                str_cov['styles'][k] = str_cov['styles'].get(k, 0) + c
+            for k, c in o['lead'].items():
+                str_cov['leading_indicator_then_non_space'][k] = str_cov['leading_indicator_then_non_space'].get(k, 0) + c
+            str_cov['L_predicts_D12_rejection'] += o['keytoolong']
+            str_cov['plain_unsafe_places'] += o['plain_unsafe']
+            str_cov['plain_safe_but_quoted'] += o['plain_refused']
+        traces += [(k, rec, False) for k, rec in uniq.items()]
+        for k, (c, ex) in sorted(drift.items()):
+            v.note('spec-drift C02/%s (%s): %d states where L of StrContext.tla and the real %s differ (H is silent on it): %s'
+                   % (name, k, c, 'SafeLoader' if k == 'scanner' else 'SafeDumper', json.dumps(ex, default=str)[:500]))
+        os.remove(r.dump)
+    if snames:
+        if not (str_cov['styles'].get('plain') and str_cov['styles'].get('sq') and str_cov['styles'].get('dq') and str_cov['plain_unsafe_places']):
+            raise SystemExit('machinery failure: the string contexts do not exercise every style decision (vacuous): %s' % str_cov)
+        if 'str_long' in snames and not d12fixed and not str_cov['L_predicts_D12_rejection']:
+            raise SystemExit('machinery failure: the model never exhibits the defect D12 (vacuous exception in PlainRoundTrip)')
+        if len(str_cov['leading_indicator_then_non_space']) != 19 and any(n != 'str_long' for n in snames):
+            raise SystemExit('machinery failure: not every indicator character leads a text (vacuous): %s' % str_cov)
     for name in names:
         r = runs[name]
         if r.violated:
@@ -347,7 +572,7 @@ def main(tier, replay=None):
         tlc.require_ok(r, 'Represent/' + name)
         states += r.distinct
         trans += r.generated
-        out = mbt.pmap(work, r.dump, {'config': name, 'extra_opts': EXTRA_OPTS[tier]})
+        out = mbt.pmap(work, r.dump, {'config': name, 'extra_opts': EXTRA_OPTS[tier]}, procs=min(16, PAR))
         n = sum(o['n'] for o in out)
         if n != r.distinct:
             raise SystemExit('machinery failure: replayed %d values, TLC found %d states' % (n, r.distinct))
@@ -374,23 +599,13 @@ def main(tier, replay=None):
             rejected += rj
             njudged += len(traces)
             traces = []
-    for k in ['init', 'item', 'entry', 'member']:
+    for k in ['init', 'item', 'entry', 'member'] if names else []:
         if not lasts.get(k):
             raise SystemExit('machinery failure: no state was produced by step %s (vacuous)' % k)
-    if not d7fixed and not any(c['L_predicts_failure'] for c in per_config.values()):
+    if names and not d7fixed and not any(c.get('L_predicts_failure') for c in per_config.values()):
         raise SystemExit('machinery failure: the model never exhibits the design defect D7 (vacuous exception in RoundTrip)')
     phases['replay_of_model_states_s'] = round(time.time() - t0, 1)
     t0 = time.time()
-    # code -> spec: larger random values
-    nrand = RANDOM_VALUES[tier]
-    chunk = max(50, nrand // 64)
-    jobs = [(SEED, a, min(chunk, nrand - a)) for a in range(0, nrand, chunk)]
-    with mp.Pool(16) as pool:
-        rout = pool.map(random_work, jobs, chunksize=1)
-    # code -> spec: the systematic string grid (every grid string x context x style x option set x 4 pairings)
-    step = max(1, len(U.GRID) // 64)
-    with mp.Pool(16) as pool:
-        gout = pool.map(grid_work, [(a, min(a + step, len(U.GRID))) for a in range(0, len(U.GRID), step)], chunksize=1)
     gobs = sum(o['obs'] for o in gout)
     robs = sum(o['obs'] for o in rout)
     uniq = {}
@@ -404,8 +619,6 @@ def main(tier, replay=None):
             uniq.setdefault(k, rec)
         traces += [(t, rec, True) for t, rec in o['suspect']]
     traces += [(k, rec, False) for k, rec in uniq.items()]
-    phases['random_driver_s'] = round(time.time() - t0, 1)
-    t0 = time.time()
     ts, rj = judge_and_report(v, yaml, traces, 'C02_rt')
     tstates += ts
     rejected += rj
@@ -419,7 +632,7 @@ def main(tier, replay=None):
                      'judged by TLC (identical projections are judged once); non-trivial = model value whose document contains an '
                      'alias (sharing or cycle), or random value of >= 3 identity-bearing objects',
              'samples': samples[:8], 'steps': lasts, 'configs': per_config, 'D7_fixed_in_tree': d7fixed,
-             'invariants': INVARIANTS}
+             'string_contexts': str_cov, 'invariants': INVARIANTS + STR_INVARIANTS}
     v.assumptions = ['strings are sequences of Unicode scalar values; ints below the CPython int->str digit limit; tzinfo = fixed offsets',
                      'option values are valid ones: encoding in {None, utf-8, utf-16-le, utf-16-be}, version in {None, (1,1), (1,2)}, '
                      'tag handles well-formed, indent 1-9, width 5-200',
